@@ -264,7 +264,8 @@ impl ConsumerGroup {
         new_consumer: &str, 
         min_idle_ms: u64, 
         ids: &[StreamId],
-        force: bool
+        force: bool,
+        justid: bool
     ) -> Vec<StreamId> {
         let mut pending = self.pending.write().unwrap();
         let mut claimed = Vec::new();
@@ -302,7 +303,7 @@ impl ConsumerGroup {
                 drop(consumers);
                 
                 // Transfer ownership
-                pending.transfer_ownership(id, new_consumer.to_string());
+                pending.transfer_ownership(id, new_consumer.to_string(), justid);
                 claimed.push(*id);
             }
         }
@@ -384,7 +385,7 @@ impl ConsumerGroup {
         drop(pending);
         
         // Claim the idle entries
-        let claimed = self.claim_messages(consumer, min_idle_ms, &idle_entries, false);
+        let claimed = self.claim_messages(consumer, min_idle_ms, &idle_entries, false, false);
         
         // Calculate next start ID
         let next_start = if let Some(last) = claimed.last() {
@@ -477,8 +478,9 @@ impl PendingEntryList {
         self.entries_by_id.get_mut(id)
     }
     
-    /// Transfer ownership of an entry to a new consumer
-    pub fn transfer_ownership(&mut self, id: &StreamId, new_consumer: String) {
+    /// Transfer ownership of an entry to a new consumer; with `justid` the transfer
+    /// does not count as a delivery
+    pub fn transfer_ownership(&mut self, id: &StreamId, new_consumer: String, justid: bool) {
         if let Some(entry) = self.entries_by_id.get_mut(id) {
             let old_consumer = entry.consumer.clone();
             
@@ -492,7 +494,9 @@ impl PendingEntryList {
             
             // Update entry
             entry.consumer = new_consumer.clone();
-            entry.delivery_count += 1;
+            if !justid {
+                entry.delivery_count += 1;
+            }
             entry.last_delivery = SystemTime::now();
             
             // Add to new consumer's index
